@@ -33,9 +33,13 @@
     create_processing_instruction, create_entity_reference and references inside attribute values;
     the unchecked rest of create_entity_reference).  Likewise [C15_lex15_reachable_model_facts],
     [C15_edited_roundtrip_model_facts], [C15_edited_roundtrip_merged_model_facts]: the theorems
-    below without [op_facts_ok] / [op_facts_ok15].  What remains assumed is that the
-    implementation's parser computes what its model computes (the [prod] / [parse] / [dom]
-    correspondences, checked on every run).
+    below without [op_facts_ok] / [op_facts_ok15].  [C15_char_data_checks_model]: the validity checks
+    that the model applies to the resulting string of every character-data edit ([valid_str]:
+    Model/CharData.v [check_text] / [check_comment] / [check_cdata]) ARE what the model of the parser
+    answers on the markup XmlText::check / XmlComment::check / XmlCData::check build
+    (content(s) complete and without child, comment / cdsect on the delimited text complete), for
+    every string.  What remains assumed is that the implementation's parser computes what its model
+    computes (the [prod] / [parse] / [dom] correspondences, checked on every run).
 
     [edited_roundtrip] (second half of this file; Model/StoreDoc.v, Proofs/StoreDoc*.v).
     [doc_of_store s : Info.document] is the infoset document a store denotes: the children of the
@@ -120,7 +124,7 @@ From XmlRs Require Import Model.Store Model.StoreCheck Model.PrintableCheck Mode
   Proofs.StoreDocInv Proofs.StoreDocShow Proofs.StoreDocWf Proofs.StoreDocReach
   Model.StoreDocMerged Proofs.StoreDocMerged Proofs.StoreDocMergedReach
   Proofs.StoreDocPiFlag Proofs.StoreIso Proofs.StoreIsoSim Proofs.StoreIsoDoc Proofs.StoreIsoQuery
-  Model.DomFacts Proofs.DomFactsAgree Proofs.DomFactsRefine Proofs.DomFactsLex15.
+  Model.DomFacts Proofs.DomFactsAgree Proofs.DomFactsRefine Proofs.DomFactsLex15 Proofs.DomFactsChecks.
 From XmlRs Require Model.CharData Proofs.NameLanguage Proofs.DomFactsData.
 Import ListNotations.
 Open Scope N_scope.
@@ -455,6 +459,16 @@ Proof.
   exact (C15_edited_roundtrip_model_facts _ rt_mf_ops 0 rt_store I2 IL M K rt_mf_final Kn).
 Qed.
 
+(** the character-data checks of the model are the answers of the model of the parser *)
+Theorem C15_char_data_checks_model : forall s,
+  text_fact s = CharData.check_text s /\ comment_fact s = CharData.check_comment s /\ cdata_fact s = CharData.check_cdata s.
+Proof. intros s. split; [apply text_fact_spec|]. split; [apply comment_fact_spec | apply cdata_fact_spec]. Qed.
+
+Theorem C15_valid_for_model : forall k s, valid_for k (facts_of_data s) = valid_str k s.
+Proof. exact valid_for_model. Qed.
+
+Print Assumptions C15_char_data_checks_model.
+Print Assumptions C15_valid_for_model.
 Print Assumptions C15_name_facts_ok_model.
 Print Assumptions C15_data_facts_ok_model.
 Print Assumptions C15_facts_ok15_model.
